@@ -293,9 +293,13 @@ def x_disk_assign(w, s):
             else:
                 target.ix[index] = val
             first = h[name].read()
+            if s.get("check_other_handle"):
+                with w.da.open_nc(path) as h2:      # a second, read-only handle while the writer is still open
+                    other[0] = h2[name].read()
             return first
         finally:
             h.close()
+    other = [None]
     got = _guard(run)
     F.finalize_leaks(w)
     w.n_disk += 1
@@ -312,6 +316,11 @@ def x_disk_assign(w, s):
         d = V.diff_arrays(got[1], exp, rtol=0, attrs=False, dtype="kind", kind=False)
         if d:
             raise Violation("C20", "disk_assign", "%s then read through the same handle: %s" % (what, d))
+        if other[0] is not None:
+            d = V.diff_arrays(other[0], exp, rtol=0, attrs=False, dtype="kind", kind=False)
+            w.count("c20:assign_seen_through_second_handle")
+            if d:
+                raise Violation("C20", "disk_assign", "%s then read through a second handle: %s" % (what, d))
         after = _guard(lambda: w.da.read_nc(path, name))
         F.finalize_leaks(w)
         if after[0] == "raise":
